@@ -69,7 +69,9 @@ class Check(CheckBase):
             'x stream length (0..6max+7 exhaustive for max<=16, seeded beyond) x content kind x '
             'segmentation x key; each run through the real Python adapter over (a) the ASan+UBSan build '
             'with exact-size heap copies, (b) the plain build with guard-page buffers, (c) poisoned tails '
-            '0x00/0xFF/random; direct cases = next_cut on buffers of every size 0..3max+8 x final; '
+            '0x00/0xFF/random; pieces handed over in one reused block with the chunks looked at only after the stream is exhausted; '
+            'max_length above the built-in default (5.2-8 MB) fed as one piece / 16 MiB feeds / random pieces; '
+            'direct cases = next_cut on buffers of every size 0..3max+8 x final; '
             'class = (max mod 4, min(size-max, 9) or tail-zone label, final, segmentation kind)')
     assumptions = ['pybind11 glue replaced by a shim; the chunker class is compiled unmodified',
                    'a clean ASan/UBSan run is absence of reports on the calls made, not memory safety']
